@@ -32,7 +32,12 @@ Flows ==
                         S("Store", "fail", FALSE, "record+"), S("Load", "stop", FALSE, "none"), S("Load", "fail", FALSE, "none")>>,
    serverCerts    |-> <<S("Load", "fail", FALSE, "none"), S("Load", "fail", FALSE, "none")>>,
    nodeNew        |-> <<S("Store", "fail", FALSE, "creds=")>>,
-   nodeHandle     |-> <<S("Store", "fail", FALSE, "creds=")>>]
+   nodeHandle     |-> <<S("Store", "fail", FALSE, "creds=")>>,
+   \* the node handles a server-led response; when that fails it handles the SAME response again with the same object: the
+   \* retry is a second, fault-free run of the same single step (success must then mean the credentials are stored)
+   nodeHandleTokenRetry |-> <<S("Store", "fail", FALSE, "creds=")>>,
+   \* the first protocol.Dial of an authorised node: load the stored credentials, (fetch over TLS,) store them, connect
+   nodeDialFirst  |-> <<S("Load", "fail", FALSE, "none"), S("Store", "fail", FALSE, "creds=")>>]
 
 FlowNames == DOMAIN Flows
 Kinds == {"generic", "notfound", "cancelled"}
